@@ -4,6 +4,7 @@ import RactorModel.Extracted
 import RactorModel.Lemmas.PidRegistryView
 import RactorModel.Lemmas.RegistryConcPid
 import RactorModel.Lemmas.RegistryThreads
+import RactorModel.Lemmas.RegistryWindow
 
 /-!
 # C10 — a name maps to at most one live actor and is released on exit
@@ -941,7 +942,7 @@ theorem wherePid_sound_threads (ops : List Reg3.Op) (hd : Reg3.Disc Reg3.init op
 enough as soon as two threads call `set_status` on one cell: thread 0 is elected and still inside its block,
 thread 1 publishes `Stopped` -/
 theorem status_order_not_enough_with_two_callers :
-    let ops : List Reg3.Op := [.spawn 0 (some 7), .publish 0 0 2, .publish 0 0 5, .publish 0 1 6]
+    let ops : List Reg3.Op := [.new 0 (some 7), .regName 0, .regPid 0, .publish 0 0 2, .publish 0 0 5, .publish 0 1 6]
     Reg3.All Reg3.statusOrdered Reg3.init ops = true ∧
     Reg3.whereIs (Reg3.run Reg3.init ops) 7 = some 0 ∧ ((Reg3.run Reg3.init ops).cell 0).status = Reg2.stopped ∧
     Reg3.whereIsPid (Reg3.run Reg3.init ops) 0 = some 0 := by
@@ -950,7 +951,7 @@ theorem status_order_not_enough_with_two_callers :
 /-- … and neither is "the caller's OWN `set_status(Stopping)` has returned" (the order of the statements of
 `ActorLifecycleGuard::cleanup` alone): the second caller's `Stopping` loses the election and returns at once -/
 theorem own_order_not_enough_with_two_callers :
-    let ops : List Reg3.Op := [.spawn 0 (some 7), .publish 0 0 2, .publish 0 0 5, .publish 0 1 5, .publish 0 1 6]
+    let ops : List Reg3.Op := [.new 0 (some 7), .regName 0, .regPid 0, .publish 0 0 2, .publish 0 0 5, .publish 0 1 5, .publish 0 1 6]
     Reg3.All Reg3.ownOrdered Reg3.init ops = true ∧ Reg3.All Reg3.statusOrdered Reg3.init ops = true ∧
     Reg3.Disc Reg3.init ops = false ∧
     Reg3.whereIs (Reg3.run Reg3.init ops) 7 = some 0 ∧ ((Reg3.run Reg3.init ops).cell 0).status = Reg2.stopped := by
@@ -1004,13 +1005,67 @@ theorem stopping_call_sites_match_source :
     Extracted.cleanupOrder.getLast? = some "set_status:Stopped" := by decide
 
 /-- non-vacuity: a run that obeys the discipline with two threads on one cell (thread 1 publishes `Running`
-while thread 0 stops the cell), the name is re-registered by a successor after the exit -/
+while thread 0 stops the cell); same-name constructors lose while the entry is held (by the stopping cell, then\nby a constructor that is rolled back), a successor takes the name after the exit -/
 example :
-    let ops : List Reg3.Op := [.spawn 0 (some 7), .publish 0 1 2, .publish 0 0 5, .publish 0 1 4, .bstep 0 0,
-      .bstep 0 0, .spawn 1 (some 7), .bstep 0 0, .bstep 0 0, .publish 0 0 5, .publish 0 0 6, .spawn 2 (some 7)]
-    Reg3.Disc Reg3.init ops = true ∧ Reg3.whereIs (Reg3.run Reg3.init ops) 7 = some 2 ∧
-    ((Reg3.run Reg3.init ops).cell 0).status = 6 ∧ ((Reg3.run Reg3.init ops).cell 1).born = false ∧
+    let ops : List Reg3.Op := [.new 0 (some 7), .regName 0, .regPid 0, .publish 0 1 2, .publish 0 0 5, .publish 0 1 4,
+      .bstep 0 0, .bstep 0 0, .new 1 (some 7), .regName 1, .bstep 0 0, .bstep 0 0, .publish 0 0 5, .publish 0 0 6,
+      .new 2 (some 7), .regName 2, .regPidFail 2, .new 3 (some 7), .regName 3, .rollback 2, .new 4 (some 7), .regName 4,
+      .regPid 4]
+    Reg3.Disc Reg3.init ops = true ∧ Reg3.whereIs (Reg3.run Reg3.init ops) 7 = some 4 ∧
+    ((Reg3.run Reg3.init ops).cell 0).status = 6 ∧ ((Reg3.run Reg3.init ops).cell 1).cons = .failed ∧
+    ((Reg3.run Reg3.init ops).cell 3).cons = .failed ∧ ((Reg3.run Reg3.init ops).cell 2).cons = .failed ∧
     Reg3.whereIsPid (Reg3.run Reg3.init ops) 0 = none := by decide
+
+
+/-! ### (3) the window ops of the E-THR replay (`Model/RegistryWindow.lean`) against the atomic `register` -/
+
+section
+open Registry
+
+/-- the two halves the cluster E-THR engine logs when a random schedule leaves a constructor parked at
+`new.reg_pid` (`regname k n` = `regNameOnly`, `regpid k` = `regPidOnly`) compose, on every reachable state, to the
+atomic `register` op all the `Model/Registry` theorems are about — same state, same answer, same pid events; what
+may happen BETWEEN the halves is the subject of `Reg2` (`name_without_pid_window`) and `Reg3` -/
+theorem window_halves_compose (ops : List Registry.Op) (a n : Nat)
+    (hok : (step false (run false init ops) (.register a n)).2 = .ok) :
+    regPidOnly (regNameOnly (run false init ops) a n).1 a = ((step false (run false init ops) (.register a n)).1, .ok) ∧
+    (regNameOnly (run false init ops) a n).2 = .ok ∧
+    regPidEvents (regNameOnly (run false init ops) a n).1 a = pidEvents (run false init ops) (.register a n) := by
+  have I := inv_run (inv_init false) ops
+  generalize run false init ops = s at *
+  have hf : fresh s a = true := by
+    cases h : fresh s a with
+    | true => rfl
+    | false => simp [step, h] at hok
+  have hw : (whereIs s n).isSome = false := by
+    cases h : (whereIs s n).isSome with
+    | false => rfl
+    | true => simp [step, hf, h] at hok
+  have hp : s.pids.contains a = false := by
+    cases h : s.pids.contains a with
+    | false => rfl
+    | true =>
+      obtain ⟨x, hx, hid, _⟩ := I.pidHolder a (by simpa using h)
+      exact absurd hid (fresh_iff.mp hf x hx)
+  have hst : step false s (.register a n) =
+      ({ names := s.names ++ [(n, a)], pids := s.pids ++ [a], actors := s.actors ++ [⟨a, some n, false, 0, 0⟩] }, .ok) := by
+    simp [step, hf, hw]
+  have hn : regNameOnly s a n =
+      ({ names := s.names ++ [(n, a)], pids := s.pids, actors := s.actors ++ [⟨a, some n, false, 0, 0⟩] }, .ok) := by
+    simp [regNameOnly, hst]
+  have hin : inWindow { names := s.names ++ [(n, a)], pids := s.pids, actors := s.actors ++ [⟨a, some n, false, 0, 0⟩] } a = true := by
+    simp only [inWindow, getA, getA_append_fresh hf ⟨a, some n, false, 0, 0⟩ rfl, hp]
+    rfl
+  refine ⟨?_, ?_, ?_⟩
+  · rw [hn, hst]; simp [regPidOnly, hin]
+  · rw [hn]
+  · have hw' : whereIs s n = none := by
+      cases h : whereIs s n with
+      | none => rfl
+      | some b => rw [h] at hw; cases hw
+    rw [hn]; simp [regPidEvents, regPidOnly, hin, pidEvents, hf, hw']
+
+end
 
 end C10
 
@@ -1029,3 +1084,4 @@ end C10
 #print axioms C10.disc_implies_weakest
 #print axioms C10.one_caller_own_order_is_enough
 #print axioms C10.stopping_call_sites_match_source
+#print axioms C10.window_halves_compose
